@@ -12,6 +12,7 @@ pub mod props;
 pub mod rwire;
 pub mod rzone;
 pub mod seeds;
+pub mod server;
 pub mod universe;
 pub mod util;
 pub mod wiregen;
